@@ -102,7 +102,7 @@ func runC09(ctx *core.Ctx) {
 		"non-trivial = at least 2 deliveries observed and at least 2 distinct keys or a trailing remainder; distinct by (SQL, rows) hash")
 	ctx.Assume("a missing delivery is declared only after the engine stayed quiet for >5 s with empty buffers",
 		"surplus deliveries that arrive after the settle period are not seen")
-	n := ctx.N(200, 5000)
+	n := ctx.N(2000, 60000)
 	ctx.Cases("c09", n, workers(), func(i int, r *rand.Rand) {
 		c := genC09(core.CaseRef{Stream: "c09", Index: i}, r)
 		execC09(ctx, c)
